@@ -11,6 +11,7 @@ import JominiModel.Proofs.TextTapeFaithful2
 import JominiModel.Proofs.TextTapeFaithful3
 import JominiModel.Proofs.TextTapeBlank
 import JominiModel.Proofs.TextTapeFaithfulOne
+import JominiModel.Proofs.TextDocFullEmbed
 import JominiModel.Generated.Tables
 /-
 C01 — Text tape mirrors the document's structure regardless of layout.
@@ -288,6 +289,133 @@ theorem C01_faithful_covers_nested (fs : LFields) (gt : Bytes) (hv : ValidF fs g
   ⟨toJ_renderF fs, toJ_validF fs gt hv, toJ_tapeF fs 0 gt⟩
 
 example : ValidF .nil [10] := by simp [ValidF]
+
+/-! ### C01_faithful / C01_layout_independent over the FULL document type
+
+`FFields` (Spec/TextDocFull.lean) extends `JFields` by the shapes listed above as left out; which
+of them are in is said at `C01_faithful_full`. -/
+
+/-- **C01_faithful_full**: a document of the full document type under ANY valid layout parses, and
+its tape is, up to the scalar positions, exactly the document's content (`dtapeF`: keys, operators,
+scalar bytes with their quotedness, header / parameter / `MixedContainer` tokens, container kinds,
+mixed flags and `end` links).
+
+In the document type, beyond `JFields`: the array part of a mixed container holds scalars,
+operators (`0=2`: inside the array part the `Operator(Equal)` token is kept; `?=` is not an operator
+there) and containers that start with a scalar (objects, arrays, mixed containers — ParseOpen then
+flags the enclosing container, which keeps the mixed mode alive); a nested object whose FIRST
+field is a header field (`{ a = rgb { 1 } … }`) or a parameter block (`{ [[p] v] … }`,
+`{ [[p] k = v … ] … }`); a parameter value that is the header of a container (`[[p] v] { … }`); arrays that turn mixed
+(`{ 10 0=2 1=2 }`, `{ { a } 1 2=3 }`: the first operator behind a scalar element that is not the
+first token of the array puts `MixedContainer` in front of that scalar, the rest is an array part
+as above).
+
+Still outside (tolerated malformations and quirks, see the examples below): an empty container,
+a container starting with `{` or a ghost `{}`, or a parameter block inside the array part of a mixed
+container (the parser falls back to reading `key = value` fields, `[[` is a syntax error there);
+a stray `}` at top level, the missing last `}`, `]` closing an ordinary object / `}` closing a
+parameter block.  A mixed TOP level is not accepted by the parser at all (`a=b c d` is an error). -/
+theorem C01_faithful_full (fs : FFields) (gt : Bytes) (hgt : Blank gt) (hv : FValidF fs gt)
+    (hb : hasBom (frenderF fs ++ gt) = false) :
+    ∃ T, parse (frenderF fs ++ gt) = .ok T false ∧ T.map Tok.erase = dtapeF fs 0 :=
+  faithful_full fs gt hgt hv hb
+
+/-- **C01_layout_independent_full**, the corollary: two layouts of the same content — the same
+document once gaps, ghost objects and the optional `=` in front of `{` are dropped (`stripF`) — give
+the same tape up to the scalar positions. -/
+theorem C01_layout_independent_full (fs fs' : FFields) (gt gt' : Bytes)
+    (hgt : Blank gt) (hgt' : Blank gt') (hv : FValidF fs gt) (hv' : FValidF fs' gt')
+    (hb : hasBom (frenderF fs ++ gt) = false) (hb' : hasBom (frenderF fs' ++ gt') = false)
+    (hc : stripF fs = stripF fs') :
+    ∃ T T', parse (frenderF fs ++ gt) = .ok T false ∧ parse (frenderF fs' ++ gt') = .ok T' false ∧
+      T.map Tok.erase = T'.map Tok.erase :=
+  layout_independent_full fs fs' gt gt' hgt hgt' hv hv' hb hb' hc
+
+/-- C01_faithful_full behind a UTF-8 BOM: the same tape, the BOM flag set. -/
+theorem C01_faithful_full_bom (fs : FFields) (gt : Bytes) (hgt : Blank gt) (hv : FValidF fs gt)
+    (hb : hasBom (frenderF fs ++ gt) = false) :
+    ∃ T, parse (0xef :: 0xbb :: 0xbf :: (frenderF fs ++ gt)) = .ok T true ∧ T.map Tok.erase = dtapeF fs 0 :=
+  faithful_full_bom fs gt hgt hv hb
+
+example : ∃ T, parse (0xef :: 0xbb :: 0xbf :: (frenderF exampleMixed.toF ++ [10])) = .ok T true ∧
+    T.map Tok.erase = dtapeF exampleMixed.toF 0 :=
+  C01_faithful_full_bom exampleMixed.toF [10] exampleMixed_valid.2.1
+    (toF_validF _ _ exampleMixed_valid.1) (by rw [toF_renderF]; exact exampleMixed_valid.2.2)
+
+/-- the earlier document type is inside the full one: same bytes, valid, same expected tape — so
+`C01_faithful_full` covers everything `C01_faithful_partial` covers. -/
+theorem C01_full_covers_tree (fs : JFields) (gt : Bytes) (hv : JValidF fs gt) :
+    frenderF fs.toF = jrenderF fs ∧ FValidF fs.toF gt ∧ ftapeF fs.toF 0 gt = jtapeF fs 0 gt :=
+  ⟨toF_renderF fs, toF_validF fs gt hv, toF_tapeF fs 0 gt⟩
+
+/-- the hypotheses are satisfiable -/
+example : ∃ T, parse (frenderF exampleMixed.toF ++ [10]) = .ok T false ∧
+    T.map Tok.erase = dtapeF exampleMixed.toF 0 :=
+  C01_faithful_full exampleMixed.toF [10] exampleMixed_valid.2.1
+    (toF_validF _ _ exampleMixed_valid.1) (by rw [toF_renderF]; exact exampleMixed_valid.2.2)
+
+/-- … also on a shape that is new in the full document type (`a={b=c d e {f=g}}`) -/
+example : ∃ T, parse (frenderF exampleFullValid ++ [10]) = .ok T false ∧
+    T.map Tok.erase = dtapeF exampleFullValid 0 :=
+  C01_faithful_full exampleFullValid [10] exampleFullValid_valid.2.1 exampleFullValid_valid.1
+    exampleFullValid_valid.2.2
+
+/-- `x={a=b c d {e=f} 0=2 {1 2} g}`: a mixed container whose array part holds scalars, an object,
+an `0=2` group and an array -/
+def exampleFullMixed : FFields :=
+  .cons [] ⟨false, [120]⟩ [] .eq
+    (.mixed [] [] (.kv ⟨false, [97]⟩ [] .eq (.scal [] ⟨false, [98]⟩)) .nil [32] ⟨false, [99]⟩
+      (.scal [32] ⟨false, [100]⟩
+        (.cont (.obj [32] [] (.kv ⟨false, [101]⟩ [] .eq (.scal [] ⟨false, [102]⟩)) .nil [])
+          (.scal [32] ⟨false, [48]⟩ (.op [] .eq (.scal [] ⟨false, [50]⟩
+            (.cont (.arrS [32] [] ⟨false, [49]⟩ (.cons (.scal [32] ⟨false, [50]⟩) .nil) [])
+              (.scal [32] ⟨false, [103]⟩ .nil))))))) []) .nil
+
+/-- … the expected tape of the specification is what the parser model produces on it -/
+example : parse (frenderF exampleFullMixed ++ [10]) = .ok (ftapeF exampleFullMixed 0 [10]) false := by
+  decide +kernel
+
+/-- `x={a=rgb{1} c=d}`: a header field as first field of a nested object -/
+def exampleFullHdrFirst : FFields :=
+  .cons [] ⟨false, [120]⟩ [] .eq
+    (.obj [] [] (.flds (.consHdr [] ⟨false, [97]⟩ [] .eq [] ⟨false, [114, 103, 98]⟩
+        (.arrS [] [] ⟨false, [49]⟩ .nil [])
+        (.cons [32] ⟨false, [99]⟩ [] .eq (.scal [] ⟨false, [100]⟩) .nil))) .nil []) .nil
+
+example : parse (frenderF exampleFullHdrFirst ++ [10]) = .ok (ftapeF exampleFullHdrFirst 0 [10]) false := by
+  decide +kernel
+
+/-- `x={[[p] v] c=d}`: a parameter block as first field of a nested object -/
+def exampleFullParamFirst : FFields :=
+  .cons [] ⟨false, [120]⟩ [] .eq
+    (.obj [] [] (.flds (.paramVal [] false [112] [32] ⟨false, [118]⟩ []
+        (.cons [32] ⟨false, [99]⟩ [] .eq (.scal [] ⟨false, [100]⟩) .nil))) .nil []) .nil
+
+example : parse (frenderF exampleFullParamFirst ++ [10]) = .ok (ftapeF exampleFullParamFirst 0 [10]) false := by
+  decide +kernel
+
+/-- `x={[[p] v]{1} c=d}`: a parameter value as header, in first position of a nested object -/
+def exampleFullParamHdr : FFields :=
+  .cons [] ⟨false, [120]⟩ [] .eq
+    (.obj [] [] (.flds (.paramHdr [] false [112] [32] ⟨false, [118]⟩ []
+        (.arrS [] [] ⟨false, [49]⟩ .nil [])
+        (.cons [32] ⟨false, [99]⟩ [] .eq (.scal [] ⟨false, [100]⟩) .nil))) .nil []) .nil
+
+example : parse (frenderF exampleFullParamHdr ++ [10]) = .ok (ftapeF exampleFullParamHdr 0 [10]) false := by
+  decide +kernel
+
+/-- `x={10 0=2 1=2 {3 4}}`: an array that turns mixed -/
+def exampleFullArrMixed : FFields :=
+  .cons [] ⟨false, [120]⟩ [] .eq
+    (.arrSM [] [] ⟨false, [49, 48]⟩ .nil [32] ⟨false, [48]⟩ [] .eq
+      (.scal [] ⟨false, [50]⟩ (.scal [32] ⟨false, [49]⟩ (.op [] .eq (.scal [] ⟨false, [50]⟩
+        (.cont (.arrS [32] [] ⟨false, [51]⟩ (.cons (.scal [32] ⟨false, [52]⟩) .nil) []) .nil))))) []) .nil
+
+example : parse (frenderF exampleFullArrMixed ++ [10]) = .ok (ftapeF exampleFullArrMixed 0 [10]) false := by
+  decide +kernel
+
+/-- `a=b c d`: a mixed top level is not accepted -/
+example : parse [97, 61, 98, 32, 99, 32, 100] = .err .eof := by decide +kernel
 
 /-! what the parser does on the shapes outside the document type -/
 
